@@ -279,7 +279,15 @@ class Machine:
                     for r in (t[1]['dest'],):
                         wr |= {pr[3] for pr in r['p'] if pr[0] == 'field' and pr[2] == SM_ADT}
             if {'minus_file', 'plus_file', 'minus_file_event', 'plus_file_event'} <= flds and not ({'minus_file', 'plus_file'} & wr):
-                self.COMPOSERS.add(p)
+                # ... and that can write: something it reaches takes the output stream (a predicate over the same fields is not a composer)
+                writes = False
+                for q in F.reachable_from([p]):
+                    qb = self.BODIES.get(q)
+                    if qb and any('dyn std::io::Write' in t_ for t_ in qb['mir']['locals'][1:qb['mir']['arg_count'] + 1]):
+                        writes = True
+                        break
+                if writes:
+                    self.COMPOSERS.add(p)
         # entry
         cons = [p for p, b in self.BODIES.items()
                 if b['kind'] == 'AssocFn' and b['mir']['arg_count'] == 2 and 'StateMachine' in b['mir']['locals'][1]
@@ -1342,7 +1350,7 @@ class Machine:
             for (rv, g3, memo3) in outs:
                 res.append((rv, g3._replace(HH=0, HW=0, OM=0), memo3))
             return res
-        if callee in self.COMPOSERS and not self.color_only and not self.passthrough and not self.quiet:
+        if callee in self.COMPOSERS and self.composer_depth == 0 and not self.color_only and not self.passthrough and not self.quiet:
             # the composed file header of a section
             self.events['HDR_COMPOSED'] += 1
             if g.FH and g.SRC == self.SRCV.get('GitDiff'):
